@@ -101,8 +101,10 @@ class Prepared:
                     kw['unit'] = c['unit']
                 if c['cls'] == 'Enum':
                     kw['states'] = ['a', 'b']
-                obj = cls(c['name'], 'help ' + c['name'], **kw)
-                if c['cls'] == 'Info':
+                if c.get('labels'):
+                    kw['labelnames'] = list(c['labels'])      # a labelled parent without children: collect() yields
+                obj = cls(c['name'], 'help ' + c['name'], **kw)  # the family with NO samples
+                if c['cls'] == 'Info' and not c.get('labels'):
                     obj.info({'k': 'v'})
                 real_collect = obj.collect
                 log = self.log
@@ -411,14 +413,21 @@ def compare_steps(reply, obs):
 
 
 # ------------------------------------------------------------------------------------------------ generators
-def custom(cid, fams, describe='same'):
-    """fams: list of (name, type); samples are generated from the type's suffixes"""
+def custom(cid, fams, describe='same', samples='full'):
+    """fams: list of (name, type); samples are generated from the type's suffixes.  `samples`: 'full' = one per suffix,
+    'first' = only the first (e.g. a counter without its _created sample), 'empty' = none (a family without children
+    yet), or a list with one of these per family"""
     families = []
     n = cid * 100
-    for name, typ in fams:
+    for i, (name, typ) in enumerate(fams):
         snames = [name + s for s in SUFFIXES[typ]] or [name]
         if typ in ('summary',):
             snames = [name] + snames
+        mode = samples if isinstance(samples, str) else samples[i]
+        if mode == 'first':
+            snames = snames[:1]
+        elif mode == 'empty':
+            snames = []
         ss = []
         for sn in snames:
             ss.append([sn, n])
@@ -435,9 +444,10 @@ def reduced_alphabet():
         custom(3, [('x_created', 'gauge')], describe=None),
         custom(4, [('target', 'info')]),
         custom(5, [('target_info', 'gauge')]),
-        custom(6, [('x', 'histogram')], describe=None),
+        custom(6, [('x', 'histogram')], describe=None, samples='empty'),    # undescribed, no children yet
         custom(7, [('x_sum', 'summary')]),
         custom(8, [('x', 'counter'), ('x_total', 'gauge')]),     # claims x_total twice (former F6)
+        custom(9, [('x', 'counter')], describe=None, samples='first'),      # undescribed, emits x_total but no x_created
     ]
     ops = []
     for c in cs:
@@ -458,17 +468,20 @@ def random_collector(rng, cid, allow_dup=False):
         c = {'id': cid, 'kind': 'builtin', 'cls': cls, 'name': name}
         if cls == 'Gauge' and rng.random() < 0.3:
             c['unit'] = 'sec'
+        if rng.random() < 0.3:
+            c['labels'] = ['l']
         return c
     for _ in range(20):
         k = rng.choice([1, 1, 1, 2, 2, 3])
         fams = [(rng.choice(ALPHABET), rng.choice(TYPES)) for _ in range(k)]
         r = rng.random()
+        modes = [rng.choice(['full', 'full', 'full', 'first', 'first', 'empty']) for _ in fams]
         if r < 0.55:
-            c = custom(cid, fams)
-        elif r < 0.85:
-            c = custom(cid, fams, describe=None)
+            c = custom(cid, fams, samples=modes)
+        elif r < 0.85:      # no describe(): under auto_describe the claims come from the TYPES of the collected families,
+            c = custom(cid, fams, describe=None, samples=modes)      # whatever samples they happen to carry
         else:   # describe() disagrees with collect()
-            c = custom(cid, fams, describe=[(rng.choice(ALPHABET), rng.choice(TYPES))])
+            c = custom(cid, fams, describe=[(rng.choice(ALPHABET), rng.choice(TYPES))], samples=modes)
         cl = claims_of(c['describe'] if c['describe'] is not None else fams)
         if len(set(cl)) == len(cl) or allow_dup or rng.random() < 0.5:
             return c
@@ -499,6 +512,12 @@ def random_case(rng, length):
 
 
 CORPUS = [
+    # auto_describe, no describe(), incomplete sample sets at registration: the claims are the TYPE's suffixes all the same
+    {'ad': True, 'ti': None, 'collectors': [custom(1, [('x', 'counter')], describe=None, samples='first'),
+                                            custom(2, [('x_created', 'gauge')]),
+                                            custom(3, [('x', 'histogram')], describe=None, samples='empty'),
+                                            custom(4, [('x_sum', 'gauge')], describe=None)],
+     'ops': [['r', 1], ['r', 2], ['u', 1], ['r', 3], ['r', 4], ['r', 2]]},
     # former F6 witness: must unregister cleanly, after which a collector claiming x registers
     {'ad': False, 'ti': None, 'collectors': [custom(1, [('x', 'counter'), ('x_total', 'gauge')]), custom(2, [('x', 'gauge')])],
      'ops': [['r', 1], ['u', 1], ['r', 2]]},
@@ -581,7 +600,7 @@ def sigs_of(case, ops):
 
 def run(ctx):
     ctx.rule = ('histories of register/unregister/set_target_info: corpus (F6 witness, interleaved failed register/unregister/'
-                'target info, built-in classes); every history of length 3 over 8 clash-rich collectors (x counter, x_total '
+                'target info, built-in classes); every history of length 3 over 9 clash-rich collectors (x counter, x_total '
                 'gauge, x_created gauge w/o describe, target info, target_info gauge, x histogram w/o describe, x_sum summary, '
                 'the F6 collector) x {register, unregister} + set_target_info(None/{}/labels), auto_describe off and on; random '
                 'histories of length 40 over 3-8 collectors drawn from the 11-name alphabet x 8 types x describe present/absent/'
